@@ -60,6 +60,34 @@ def check_cache_protocol(model, rep):
     rep.ob('R03.2', f.key, f.where(), ok, 'first_run starts True in the globals of the generated function', statement='first-run-init')
 
 
+def check_freeze_before_views(model, rep):
+    """R03.6: a cached intermediate must be read-only before a view of it can be created in the same run.  NumPy fixes the writeable
+    flag of a view when the view is created, so freezing the base at the END of the first run leaves every view of a cached array
+    that was created during that run (slice, item, transpose, real/imag) writable - and it may be returned to the caller."""
+    from rules.c04 import emitted_function
+    f = model.func('evaluable:compile')
+    ifs = [s for s in f.body if isinstance(s, ast.If) and src(s.test) == 'cache_const_intermediates']
+    br = ifs[0]
+    freeze = [s for s in br.body if isinstance(s, ast.For) and src(s.iter) == 'cache_vars']
+    at_end = bool(freeze) and any(isinstance(x, ast.Expr) and src(x.value).startswith('main.append(') and 'setflags' in src(x.value) for x in freeze[0].body)
+    A = model.cls('evaluable:Array')
+    viewers = []
+    for c in model.subclasses(A, strict=True):
+        mem = c.members.get('_compile_expression')
+        if mem is None or mem.func is None:
+            continue
+        rets = find_stmts(mem.func.body, lambda s: isinstance(s, ast.Return))
+        t = ' '.join(src(r.value) for r in rets if r.value is not None)
+        pos = params(mem.func.node)[0][1:]
+        if any(f'{p}.get_item(' in t for p in pos) or "get_attr('transpose')" in t or "get_attr('real')" in t or "get_attr('imag')" in t or "get_attr('reshape')" in t:
+            viewers.append(c.name)
+    rep.unit('view_emitting_node_classes', len(viewers))
+    ok = not (at_end and viewers)
+    rep.ob('R03.6', f.key, f.where(freeze[0]) if freeze else f.where(br), ok, 'cached intermediates are frozen before any view of them can be created' if ok else
+           f'cached intermediates are frozen only at the END of the first run (main.append(setflags)), while {len(viewers)} node classes ({", ".join(viewers[:6])}, ...) emit NumPy views of their operand: a view of a cached array '
+           'created during the first run stays writable, and overwriting it changes every later call', statement='freeze-at-end-vs-views')
+
+
 def check_system_cache(model, rep):
     '''solver.System.__cache: each key holds one kind of object, written under the same guard it is read.'''
     c = model.cls('solver:System')
@@ -138,12 +166,17 @@ def run(model, rep, tier):
     rep.rule('R03.3', 'only argument-free nodes are cacheable')
     rep.rule('R03.4', 'argument ingestion by asarray + shape check')
     rep.rule('R03.5', 'System memo slots are typed by the is_constant_matrix guard')
+    rep.rule('R03.6', 'cached intermediates are read-only before a view of them can exist')
     check_destinations(model, rep, rule='R03.1')
     check_printer(model, _Rename(rep, {'R02.4': 'R03.1', 'R02.5': 'R03.1'}))
     check_cache_protocol(model, rep)
+    check_freeze_before_views(model, rep)
     check_constancy(model, _Rename(rep, {'R06.3': 'R03.3'}))
     check_runtime(model, _Rename(rep, {'R13.3': 'R03.4'}))
     check_system_cache(model, rep)
+    from rules.c02 import check_dependency_registration, check_fields_announced
+    check_fields_announced(model, rep, rule='R03.3')
+    check_dependency_registration(model, rep, rule='R03.2')
     rep.require('R03.2', 8)
     rep.require('R03.1', 40)
     rep.require('R03.5', 5)
